@@ -182,6 +182,10 @@ def _run_monitored(ctx, text, d, working_dir="use-d", libs=arr.CSV_LIBS, api_mod
         prog.run()
     except Exception as e:
         err = e
+        try:
+            str(e)       # what every caller does with the error (the command-line tool prints it): still inside the monitored window
+        except Exception:
+            pass
     finally:
         trace.stop()
     after = trace.snapshot_dir(d)
